@@ -8,6 +8,7 @@ import BioSeq.Seq
 import BioSeq.Kmer
 import BioSeq.Iter
 import BioSeq.Misc
+import BioSeq.Standard
 import BioSeq.Generated.Tables
 
 open BioSeq
@@ -623,6 +624,97 @@ def query (x : Ctx) (q : String) : Q String := do
   | "items" => pure (String.join (c.items.map hex2))
   | _ => throw (.badOp s!"unknown query {q}")
 
+def terrStr : Translation.TErr → String
+  | .ambiguousCodon => "terr:ambiguouscodon"
+  | .ambiguousTranslation => "terr:ambiguoustranslation"
+  | .invalidCodon => "terr:invalidcodon"
+  | .invalidAmino => "terr:invalidamino"
+  | .panic => "panic"
+
+def codonTableQuery (x : Ctx) (amino : Codec) : Q String := do
+  let n ← qlift num
+  let mut entries : List (Bits × Nat) := []
+  for _ in [0:n] do
+    let h ← qlift hexBytes
+    let codon ← qres (Seq.parseBytes x.c h)
+    let i ← qlift num
+    entries := entries ++ [(codon, item amino i)]
+  let nq ← qlift num
+  let t := Translation.fromMap entries
+  let mut outs : List String := []
+  -- queries are parsed first, then evaluated (a failing slice expression fails the whole line)
+  let mut qs : List (Sum S Nat) := []
+  for _ in [0:nq] do
+    let k ← qlift next
+    if k = "c" then
+      let s ← qlift parseS
+      qs := qs ++ [.inl s]
+    else if k = "a" then
+      let i ← qlift num
+      qs := qs ++ [.inr i]
+    else throw (.badOp "codontable query")
+  for q in qs do
+    match q with
+    | .inl s =>
+      let bs ← qr (evalS x s)
+      outs := outs ++ [match t.tryToAmino bs with | .ok a => hex2 a | .error e => terrStr e]
+    | .inr i =>
+      outs := outs ++ [match t.tryToCodon (item amino i) with
+        | .ok c => s!"codon:{content x.c c}" | .error e => terrStr e]
+  pure (if outs.isEmpty then "-" else ";".intercalate outs)
+
+/-- codec-specific queries (harness/src/misc.rs `special`) -/
+def special (x : Ctx) (q : String) : Option (Q String) :=
+  let p := x.p
+  match x.name, q with
+  | "iupac", "contains" => some do
+    let kind ← qlift next
+    let a ← qlift parseS; let b ← qlift parseS
+    if kind ≠ "seq" ∧ kind ≠ "slice" then throw (.badOp "contains kind")
+    let l ← qr (evalS x a); let r ← qr (evalS x b)
+    pure (boolStr (Translation.contains x.c l r))
+  | "dna", "conv" => some do
+    let target ← qlift next
+    let s ← qlift parseS
+    let some dstp := (if target = "iupac" then some Gen.iupac else if target = "text" then some Gen.text else none)
+      | throw (.badOp "conv target")
+    let bs ← qr (evalS x s)
+    let r ← qres (Standard.convert p x.c (dstp p) (Standard.convTable p target) bs)
+    pure (showS { x with c := dstp p, name := target } r)
+  | "dna", "toamino" => some do
+    let s ← qlift parseS; let bs ← qr (evalS x s)
+    match Translation.toAmino x.c (Gen.amino p) bs with
+    | .ok a => pure (hex2 a)
+    | .error _ => throw (.bio .panic)
+  | "dna", "translate" => some do
+    let s ← qlift parseS; let bs ← qr (evalS x s)
+    let amino := Gen.amino p
+    let tr (ws : List (Res Bits)) : Q Bits := do
+      let mut acc : Bits := []
+      for w in ws do
+        let wb ← qres w
+        match Translation.toAmino x.c amino wb with
+        | .ok a => acc := Seq.push amino acc a
+        | .error _ => throw (.bio .panic)
+      pure acc
+    let w ← tr (Iter.windows p x.c bs 3)
+    let c ← tr (Iter.chunks p x.c bs 3)
+    pure s!"{content amino w} {content amino c}"
+  | "iupac", "trytoamino" => some do
+    let s ← qlift parseS; let bs ← qr (evalS x s)
+    pure (match Translation.tryToAmino x.c (Standard.rows p) bs with
+      | .ok a => hex2 a | .error e => terrStr e)
+  | "amino", "trytocodon" => some do
+    let i ← qlift num
+    pure (match Translation.stdTryToCodon (Standard.rows p) (item x.c i) with
+      | .ok c => s!"codon:{content (Gen.iupac p) c}" | .error e => terrStr e)
+  | "amino", "tocodon" => some do
+    let _ ← qlift num
+    pure "terr:ambiguouscodon"
+  | "dna", "codontable" => some (codonTableQuery x (Gen.amino p))
+  | "iupac", "codontable" => some (codonTableQuery x (Gen.amino p))
+  | _, _ => none
+
 def evalLine (p : Profile) (line : String) : String :=
   let toks := (line.splitOn " ").filter (· ≠ "")
   match toks with
@@ -631,7 +723,8 @@ def evalLine (p : Profile) (line : String) : String :=
     | none => "bad-op codec"
     | some cp =>
       let x : Ctx := { p := p, c := cp p, name := codec, symbols := Gen.symbolsOf codec p }
-      match (query x q).run rest with
+      let qq := match special x q with | some m => m | none => query x q
+      match qq.run rest with
       | .ok (s, _) => s!"ok {s}"
       | .error f => failStr f
   | _ => "bad-op empty"
